@@ -21,14 +21,14 @@ import (
 type c12LossKind int
 
 const (
-	c12LossClose     c12LossKind = iota // transport failure: the peer's end of the connection goes away
-	c12LossHold                         // hold timer expiry at the helper (peer silent)
-	c12LossNotif                        // NOTIFICATION from the peer, not a hard reset
-	c12LossHardReset                    // NOTIFICATION Cease/Hard Reset (6/9) from the peer
-	c12LossAdminShutdown                // ShutdownPeer on the helper (Cease/administrative shutdown sent)
-	c12LossAdminDisable                 // DisablePeer on the helper
-	c12LossAdminReset                   // ResetPeer (hard) on the helper
-	c12LossDelete                       // DeletePeer on the helper
+	c12LossClose         c12LossKind = iota // transport failure: the peer's end of the connection goes away
+	c12LossHold                             // hold timer expiry at the helper (peer silent)
+	c12LossNotif                            // NOTIFICATION from the peer, not a hard reset
+	c12LossHardReset                        // NOTIFICATION Cease/Hard Reset (6/9) from the peer
+	c12LossAdminShutdown                    // ShutdownPeer on the helper (Cease/administrative shutdown sent)
+	c12LossAdminDisable                     // DisablePeer on the helper
+	c12LossAdminReset                       // ResetPeer (hard) on the helper
+	c12LossDelete                           // DeletePeer on the helper
 )
 
 func (k c12LossKind) String() string {
@@ -37,13 +37,13 @@ func (k c12LossKind) String() string {
 
 // c12Open is the GR-relevant content of the OPEN the peer sends for one session.
 type c12Open struct {
-	GR     bool                   // Graceful Restart capability present
-	RBit   bool                   // restart state
-	NBit   bool                   // RFC 8538 notification support
-	RT     uint16                 // restart time
-	GRFams map[bgp.Family]bool    // families listed in the GR capability -> forwarding-state bit
-	LLGR   bool                   // Long-lived GR capability present
-	LLFams map[bgp.Family]uint32  // families listed in the LLGR capability -> long-lived stale time
+	GR     bool                  // Graceful Restart capability present
+	RBit   bool                  // restart state
+	NBit   bool                  // RFC 8538 notification support
+	RT     uint16                // restart time
+	GRFams map[bgp.Family]bool   // families listed in the GR capability -> forwarding-state bit
+	LLGR   bool                  // Long-lived GR capability present
+	LLFams map[bgp.Family]uint32 // families listed in the LLGR capability -> long-lived stale time
 }
 
 func (o c12Open) String() string {
@@ -108,14 +108,14 @@ type c12MRoute struct {
 type c12Model struct {
 	cfg c12HelperCfg
 
-	up    bool
-	open  c12Open // OPEN of the current / last session
-	gr    bool    // GR in force for that session (helper enabled + capability received)
-	nbit  bool
-	llgr  bool
-	grF   map[bgp.Family]bool   // families preserved on a qualifying loss
-	llF   map[bgp.Family]uint32 // families kept in the long-lived phase -> stale time
-	eor   map[bgp.Family]bool   // End-of-RIB received in the current session
+	up   bool
+	open c12Open // OPEN of the current / last session
+	gr   bool    // GR in force for that session (helper enabled + capability received)
+	nbit bool
+	llgr bool
+	grF  map[bgp.Family]bool   // families preserved on a qualifying loss
+	llF  map[bgp.Family]uint32 // families kept in the long-lived phase -> stale time
+	eor  map[bgp.Family]bool   // End-of-RIB received in the current session
 
 	routes map[c12Key]*c12MRoute
 
@@ -125,14 +125,14 @@ type c12Model struct {
 	inLLGR     bool // long-lived phase entered and not finished
 
 	lastLossQualified bool
-	sessions     int                 // sessions established so far
-	capChanged   bool                // the current session's GR/LLGR capabilities differ from an earlier session's
-	llgrEpisodes int                 // long-lived phases entered so far
-	episodesAtLoss int               // ... at the time of the latest loss
-	llstFiredUp  map[bgp.Family]bool // a long-lived timer of the family ran out while the session was re-established
-	gone  map[c12Key]string // rule class that removed a route last
-	trans map[string]int    // lifecycle transitions the model went through
-	log   []string
+	sessions          int                 // sessions established so far
+	capChanged        bool                // the current session's GR/LLGR capabilities differ from an earlier session's
+	llgrEpisodes      int                 // long-lived phases entered so far
+	episodesAtLoss    int                 // ... at the time of the latest loss
+	llstFiredUp       map[bgp.Family]bool // a long-lived timer of the family ran out while the session was re-established
+	gone              map[c12Key]string   // rule class that removed a route last
+	trans             map[string]int      // lifecycle transitions the model went through
+	log               []string
 }
 
 func c12NewModel(cfg c12HelperCfg) *c12Model {
@@ -482,14 +482,16 @@ func (m *c12Model) nextTimer() (time.Time, string, bool) {
 	return best, what, ok
 }
 
-// ctx qualifies violation keys of a restart that follows an earlier long-lived phase of the same peer
-// (gobgp keeps per-peer LLGR bookkeeping across restarts, so such findings have their own root causes).
+// ctx qualifies violation keys (it is placed right after "c12:") of scenarios in which the peer changed its
+// GR/LLGR capabilities between sessions, or in which the current restart follows an earlier long-lived
+// phase of the same peer: gobgp keeps negotiated state and LLGR bookkeeping across sessions, so findings
+// in these contexts have root causes of their own and get key prefixes of their own.
 func (m *c12Model) ctx() string {
 	if m.capChanged {
-		return ":after-capability-change"
+		return "after-capability-change:"
 	}
 	if m.episodesAtLoss > 0 {
-		return ":after-earlier-llgr-phase"
+		return "after-earlier-llgr-phase:"
 	}
 	return ""
 }
